@@ -48,6 +48,10 @@ def gen_case(rng):
             # that declares another method with the same name, signature and
             # policy and a definition of its own: two distinct methods
             "shadow": rng.random() < 0.4,
+            # (use_next / next<> styles) a second method with the same
+            # signature whose definition names the same tag type in its own
+            # use_next<> / next<>: two methods, two next variables
+            "sibling": rng.random() < 0.5,
             "reg_order": rng.sample(range(n), n),
             "style": rng.choice(["macro", "macro", "macro_inline",
                                  "static_method", "use_next",
@@ -225,6 +229,21 @@ def emit(case):
             if style == "add_function_twice":
                 out.append("static walk_m::add_function<fn%d> again%d;" % (
                     d, d))
+    if case.get("sibling") and style in ("use_next", "next_alias") and \
+            case["defs"]:
+        sp = ["K%d& a%d" % (c, k) for k, c in enumerate(case["vp"])]
+        if case["extra_int"]:
+            sp.insert(1 if len(sp) > 1 else 0, "int x")
+        out.append("struct walk2_key;")
+        out.append("using walk2_m = method<walk2_key, void(%s), pol>;" %
+                   ", ".join(params))
+        helper = "use_next" if style == "next_alias" else "next"
+        for d in range(len(case["defs"])):
+            out.append("struct sib%d : walk2_m::%s<def%d> { static void "
+                       "fn(%s) { g_chain += \"S>\"; } };" % (
+                           d, helper, d, ", ".join(sp)))
+            out.append("static walk2_m::add_definition<sib%d> regsib%d;" % (
+                d, d))
     if shadow:
         out.append("} } // namespace outer::inner")
     out.append("static std::string record() {")
@@ -328,6 +347,10 @@ def check(tier, seed, scratch, inc, ncpu, pool_map, prop="C03"):
                              case.get("shadow", False) and
                              case.get("style", "macro") in (
                                  "macro", "macro_inline")),
+                            ("next_program_sibling_method_same_tag",
+                             case.get("sibling", False) and
+                             case.get("style", "macro") in (
+                                 "use_next", "next_alias")),
                             ("next_chain_of_3+_definitions", long_chain)):
             if flag:
                 res["classes"][label] = res["classes"].get(label, 0) + 1
@@ -367,4 +390,6 @@ def shrinks(case):
         out.append(dict(case, style="macro"))
     if case.get("shadow"):
         out.append(dict(case, shadow=False))
+    if case.get("sibling"):
+        out.append(dict(case, sibling=False))
     return out
